@@ -302,12 +302,15 @@ def run_vector(item, only=None):
 class PriceProbe(S.Scripted):
     """scripted scheduler that also queries the interface's price accessors at every invocation"""
 
-    def __init__(self, prog, log):
+    def __init__(self, prog, log, swap_at=None, swap=None):
         super().__init__(prog)
         self.log = log
+        self.swap_at, self.swap = swap_at, swap
 
     def schedule(self, active_sessions):
         t = self.interface.current_time
+        if self.swap is not None and t == self.swap_at:
+            self.swap()  # the owner of the simulation replaces its tariff signal from this period on
         rec = {"t": t}
         for n in (1, 4):
             rec["prices_%d" % n] = list(self.interface.get_prices(n))
@@ -385,6 +388,31 @@ def run_sim(item, only=None):
                 if r["dc"] != D(t) or r["dc_at_0"] != D(0):
                     rep("interface:get_demand_charge", "%s: get_demand_charge() at iteration %d = %r, expected %r" % (f, t, r["dc"], D(t)), r["dc"], D(t), ctx)
                     break
+            # ---- the simulation's tariff signal is replaced mid-run: every later answer is about the new tariff
+            other_f = FILES[(FILES.index(f) + 1) % len(FILES)]
+            if starts.index(st) < 2 and all(ref_lookup(other_f, st + timedelta(minutes=period * k))[2] == 1 for k in range(14)):
+                log2 = []
+                holder = {}
+                other_t = TimeOfUseTariff(other_f)
+                algo2 = PriceProbe({"rule": "altcol", "len": 1}, log2, swap_at=4, swap=lambda: holder["sim"].signals.__setitem__("tariff", other_t))
+                algo2.max_recompute = 1
+                scn2 = {"net": "N2", "sessions": sessions, "period": period, "k": 1, "signals": {"tariff": TimeOfUseTariff(f)}}
+                with warnings.catch_warnings():
+                    warnings.simplefilter("ignore")
+                    sim2, _, _, _ = S.build_sim(scn2, algo=algo2)
+                    sim2.start = st
+                    holder["sim"] = sim2
+                    sim2.run()
+                stats["n"] += len(log2)
+                for r in log2:
+                    t = r["t"]
+                    ff = f if t < 4 else other_f
+                    P2 = lambda k: ref_lookup(ff, st + timedelta(minutes=period * k))[0]
+                    exp = {"prices_4": [P2(t + k) for k in range(4)], "prices_at_2": [P2(2 + k) for k in range(3)], "prices_at_0": [P2(0), P2(1)], "dc": ref_lookup(ff, st + timedelta(minutes=period * t))[1]}
+                    bad = [k for k in exp if r[k] != exp[k]]
+                    if bad:
+                        rep("interface:tariff-replaced-mid-run:%s" % bad[0], "%s -> %s from period 4: at iteration %d %s = %s, the tariff then in force gives %s" % (f, other_f, t, bad[0], r[bad[0]], exp[bad[0]]), r[bad[0]], exp[bad[0]], ctx)
+                        break
             # analysis cost functions on the completed run
             ids = sim.network.station_ids
             volt = {sid: S.NETS["N2"]["stations"][sid][1] for sid in ids}
